@@ -317,6 +317,10 @@ pub fn expected_op_info(family: &Family, ops: &[AOp], o: &AOp) -> Option<OpInfo>
                     info.inner_dots.push((o.author, n));
                 }
             }
+            if path.is_empty() && matches!(leaf, Leaf::Write(_)) {
+                // a top-level register op carries its dot only inside the write context
+                info.dot = None;
+            }
             match leaf {
                 Leaf::SetRm { ctx, .. } | Leaf::KeyRm { ctx, .. } => info.rm_ctx = Some(ctx.clone()),
                 Leaf::Write(_) => {
@@ -482,4 +486,146 @@ impl SeqOracle {
         }
         Ok(())
     }
+}
+
+// -------------------------------------------------------------------------------------------------
+// pending removes and reset_remove (C08, C18, C20)
+// -------------------------------------------------------------------------------------------------
+
+/// the pending-remove table a top-level Orswot / Map must hold: removes known in `k` whose context is
+/// not yet covered by the replica clock, keyed by context
+pub fn pending(ops: &[AOp], k: KSet) -> BTreeMap<Clk, BTreeSet<u8>> {
+    let clock = clock_of(ops, k);
+    let mut t: BTreeMap<Clk, BTreeSet<u8>> = BTreeMap::new();
+    for (i, o) in ops.iter().enumerate() {
+        if !has(k, i) || o.dot.is_some() {
+            continue;
+        }
+        if let AInfo::Dotted { path, leaf } = &o.info {
+            if !path.is_empty() {
+                continue;
+            }
+            let (ctx, ms): (&Clk, Vec<u8>) = match leaf {
+                Leaf::SetRm { ms, ctx } => (ctx, ms.clone()),
+                Leaf::KeyRm { k, ctx } => (ctx, vec![*k]),
+                _ => continue,
+            };
+            if !clk_leq(ctx, &clock) {
+                t.entry(ctx.clone()).or_default().extend(ms);
+            }
+        }
+    }
+    t
+}
+
+/// VClock::reset_remove on canonical clocks: an entry survives iff it is strictly newer than `c`
+pub fn clk_reset(x: &Clk, c: &Clk) -> Clk {
+    x.iter().filter(|(a, n)| **n > clk_get(c, **a)).map(|(a, n)| (*a, *n)).collect()
+}
+
+fn reset_body(shape: &Shape, ops: &[AOp], k: KSet, path: &[u8], c: &Clk, universe: u8) -> DObs {
+    match shape {
+        Shape::Set => {
+            let mut m = BTreeMap::new();
+            for x in 0..universe {
+                let w = clk_reset(&member_witnesses(ops, k, path, x), c);
+                if !w.is_empty() {
+                    m.insert(x, w);
+                }
+            }
+            DObs::Set(m)
+        }
+        Shape::Reg => {
+            // a value goes when every dot of the context it was written with is covered
+            let mut vals = vec![];
+            for (i, o) in ops.iter().enumerate() {
+                if !has(k, i) {
+                    continue;
+                }
+                if let (Some(n), AInfo::Dotted { path: p, leaf: Leaf::Write(v) }) = (o.dot, &o.info) {
+                    if p.as_slice() != path || !reg_values(ops, k, path).contains(v) {
+                        continue;
+                    }
+                    let base = if path.is_empty() { closure(ops, o.k_read) } else { o.k_read };
+                    let mut ctx = clock_of(ops, base);
+                    clk_bump(&mut ctx, o.author, n);
+                    if !clk_reset(&ctx, c).is_empty() {
+                        vals.push(*v);
+                    }
+                }
+            }
+            vals.sort();
+            DObs::Reg(vals)
+        }
+        Shape::Map(inner) => {
+            let mut m = BTreeMap::new();
+            for x in 0..universe {
+                let mut t = path.to_vec();
+                t.push(x);
+                let ec = clk_reset(&entry_clock(ops, k, &t), c);
+                if !ec.is_empty() {
+                    m.insert(x, (ec, reset_body(inner, ops, k, &t, c, universe)));
+                }
+            }
+            DObs::Map(m)
+        }
+    }
+}
+
+/// expected observation after reset_remove(c) of a replica with knowledge `k`
+pub fn expect_after_reset(family: &Family, ops: &[AOp], k: KSet, c: &Clk, universe: u8) -> Option<Obs> {
+    match family {
+        Family::Dotted(shape) => {
+            let add = if matches!(shape, Shape::Reg) {
+                // join of the reduced contexts of the surviving values
+                let mut add = Clk::new();
+                for (i, o) in ops.iter().enumerate() {
+                    if !has(k, i) {
+                        continue;
+                    }
+                    if let (Some(n), AInfo::Dotted { leaf: Leaf::Write(v), .. }) = (o.dot, &o.info) {
+                        if reg_values(ops, k, &[]).contains(v) {
+                            let mut ctx = clock_of(ops, closure(ops, o.k_read));
+                            clk_bump(&mut ctx, o.author, n);
+                            add = clk_join(&add, &clk_reset(&ctx, c));
+                        }
+                    }
+                }
+                add
+            } else {
+                clk_reset(&clock_of(ops, k), c)
+            };
+            Some(Obs::Dotted { add, body: reset_body(shape, ops, k, &[], c, universe), notes: vec![] })
+        }
+        Family::VClock => match expect(family, ops, k, universe) {
+            Some(Obs::Clock(x)) => Some(Obs::Clock(clk_reset(&x, c))),
+            _ => None,
+        },
+        Family::GCounter | Family::PNCounter => {
+            let mut p = Clk::new();
+            let mut n = Clk::new();
+            for (i, o) in ops.iter().enumerate() {
+                if has(k, i) {
+                    if let AInfo::Counter { neg, total } = o.info {
+                        clk_bump(if neg { &mut n } else { &mut p }, o.author, total);
+                    }
+                }
+            }
+            let v: i128 = clk_reset(&p, c).values().map(|x| *x as i128).sum::<i128>() - clk_reset(&n, c).values().map(|x| *x as i128).sum::<i128>();
+            Some(Obs::Num { val: v.to_string(), notes: vec![] })
+        }
+        _ => None,
+    }
+}
+
+/// the pending-remove table after reset_remove(c)
+pub fn pending_after_reset(t: &BTreeMap<Clk, BTreeSet<u8>>, c: &Clk) -> BTreeMap<Clk, BTreeSet<u8>> {
+    let mut r: BTreeMap<Clk, BTreeSet<u8>> = BTreeMap::new();
+    for (ctx, ms) in t {
+        let x = clk_reset(ctx, c);
+        if !x.is_empty() {
+            r.entry(x).or_default().extend(ms.iter().copied());
+        }
+    }
+    r
 }
